@@ -448,6 +448,7 @@ class IKRun:
         self.steps_done += 1
         if op in ("IK", "cIK", "IKFree"):
             self._oracle(st, ret, exc, info, len(draws))
+            self._alias_check(st, ret, exc)
         else:
             if exc is not None:
                 self.probes["exc_%s_%s" % (op, type(exc).__name__)] += 1
@@ -652,6 +653,34 @@ class IKRun:
         self.n_nontrivial += 1
         self.transitions.add(digest_int((sig["arm"], path, success, min(restarts, 7), check,
                                          (st.get("rs") or {}).get("kinds", ["explicit"])[0], pos_tol > rot_tol, g["k"])))
+
+    def _alias_check(self, st, ret, exc):
+        """The caller owns what IK returned.  Editing it in place (the way-point idiom `theta[1] += 0.3`) must not move
+        the arm: otherwise "the arm's state is that solution" stops holding between two library calls, and a later
+        failed solve that leaves the state untouched leaves an incoherent arm."""
+        if exc is not None:
+            return
+        try:
+            theta_obj, success = ret
+        except Exception:
+            return
+        if not isinstance(theta_obj, np.ndarray) or theta_obj.size == 0 or not np.issubdtype(theta_obj.dtype, np.floating):
+            return
+        arm = self.arm
+        before = np.array(arm._theta, float).reshape(-1).copy()
+        dev0 = self.coherent()
+        try:
+            theta_obj += 0.37
+        except Exception:
+            return
+        after = np.array(arm._theta, float).reshape(-1)
+        if after.shape != before.shape or float(np.max(np.abs(after - before))) > 1e-12:
+            raise Violation("K-state", "%s returned the arm's own joint-state array: after the caller edited the returned vector "
+                            "in place the arm stores %s instead of %s (reported tool pose now off by %.3e)" % (
+                                st["op"], np.round(after, 4).tolist(), np.round(before, 4).tolist(), self.coherent()),
+                            {"op": st["op"], "path": "free" if st.get("protect") else ("ikfree" if st["op"] == "IKFree" else "constrained"),
+                             "alias": True, "success": bool(success)})
+        self.probes["returned_vector_edited_by_caller"] += 1
 
     def _local_applicable(self, st, info):
         g = st["goal"]
